@@ -1719,6 +1719,29 @@ func init() {
 		return tuple{ex.tc.Int64(int64(v)), iface{}}
 	}
 	m["strings.Split"] = func(ex *Exec, c *frame, fn *ssa.Function, a []value) value {
+		if st, ok := a[0].(*Term); ok && !st.IsConst() {
+			// symbolic input, constant non-empty separator: one case split per occurrence
+			// (the path condition bounds the length, so the splitting ends)
+			sepT, ok2 := a[1].(*Term)
+			if !ok2 || !sepT.IsConst() || sepT.s == "" {
+				panic(unsupported{"strings.Split with a symbolic or empty separator"})
+			}
+			tc := ex.tc
+			var out []value
+			rest := st
+			for n := 0; ; n++ {
+				if n > 24 {
+					panic(unsupported{"strings.Split: more than 24 separators on a symbolic string"})
+				}
+				if !ex.branch(tc.StrContains(rest, sepT)) {
+					return append(out, rest)
+				}
+				i := tc.StrIndexOf(rest, sepT, tc.IntConst(0))
+				out = append(out, tc.StrSubstr(rest, tc.IntConst(0), i))
+				off := tc.IntBin("+", i, tc.IntConst(int64(len(sepT.s))))
+				rest = tc.StrSubstr(rest, off, tc.IntBin("-", tc.StrLen(rest), off))
+			}
+		}
 		s, sep := ex.constStr(a[0], "Split input"), ex.constStr(a[1], "Split separator")
 		parts := strings.Split(s, sep)
 		out := make([]value, len(parts))
